@@ -30,7 +30,7 @@ def gen_cfg(rng, real_frac=0.06, allow_long=True, engines=None):
     if real:
         eng = rng.choice(engines or ["basic", "langevin", "xl", "ksa", "xl_damp", "exc_basic", "exc_xl", "sh"])
     else:
-        eng = rng.choice(engines or ["basic", "langevin", "xl", "xl", "ksa", "ksa", "xl_damp", "sh_model", "sh_model"])
+        eng = rng.choice(engines or ["basic", "langevin", "xl", "xl", "ksa", "ksa", "xl_damp", "sh_model", "sh_model", "exc_basic", "exc_xl"])
         if eng not in mdsim.STUB_OK:
             real = True
     cfg = {"engine": eng, "driver": "real" if real else "stub"}
@@ -53,6 +53,11 @@ def gen_cfg(rng, real_frac=0.06, allow_long=True, engines=None):
         if rng.random() < 0.3:
             cfg["extra_pad"] = rng.randint(1, 2)
             cfg["pad_coords"] = True
+        if eng in ("exc_basic", "exc_xl"):
+            # excited-state BOMD / XL-BOMD on the stub's synthetic amplitudes and transition densities
+            cfg["n_states"] = rng.randint(1, 4)
+            cfg["active_state"] = rng.randint(0, cfg["n_states"])
+            cfg["stub"]["gamma"] = rng.choice([0.3, 0.8])
     if eng == "sh_model":
         # surface hopping on the analytic N-state model: cheap enough for thousands of crash/resume runs
         cfg["batch"] = rng.choice([["h2o"], ["h2o", "h2o"], ["nh3", "h2o"], ["h2o", "h2co", "h2o"]])
@@ -84,6 +89,8 @@ def gen_cfg(rng, real_frac=0.06, allow_long=True, engines=None):
     h5 = {"data": cad(), "coordinates": cad(), "velocities": cad(), "forces": cad()}
     if eng in ("sh", "sh_model"):
         h5["nonadiabatic"] = rng.choice([0, 1, 2, 3])
+    if eng in ("exc_basic", "exc_xl"):
+        h5["transition_density_matrices"] = rng.choice([0, 1, 2, 3, 4])
     cfg["out"] = {
         "molid": molid,
         "print": rng.choice([0, 0, 1, 3]),
